@@ -18,8 +18,24 @@ def make_node(collide):
     return mk
 
 
-def rotate_impl(t, p, collide=0):
-    root, table = SH.build_nodes(t, make_node(collide))
+def expr_tree(text):
+    """a fresh parse of `text` with every node object numbered in pre-order (_vid): (root, shape, table) or None"""
+    from mathy_core.parser import ExpressionParser
+    from suites.c13 import preorder
+    try:
+        root = ExpressionParser().parse(text)
+    except Exception:
+        return None
+    table = {}
+    for i, o in enumerate(preorder(root)):
+        o._vid = i
+        table[i] = o
+    t, errs = SH.read_back(root, nid)
+    return None if errs else (root, t, table)
+
+
+def rotate_impl(t, p, collide=0, built=None):
+    root, table = built if built is not None else SH.build_nodes(t, make_node(collide))
     node = table[SH.sub(t, p)[1]]
     parent = node.parent
     grand = parent.parent if parent is not None else None
@@ -67,6 +83,43 @@ def run(ctx):
         ps = SH.paths(t)
         cases += [(t, rnd.choice(ps), rnd.randint(0, 2)) for _ in range(6)]
     res.dist["exhaustive_upto_nodes"] = nmax
+    # EXPRESSION trees (MathExpression subclasses inherit rotate; the associative rule calls it): every node of parsed expressions,
+    # operators of mixed kinds, unary nodes (one child), leaves
+    import gens
+    texts = ["4 * (x + y)", "(a * b) + c", "2x^2 + (3 + y) * z", "-(x + 2) * 3", "sgn(x + 1) * y", "5! + x", "a = b + c", "(x + y) + (x + y)"]
+    texts += [gens.valid_expr(rnd, rnd.randint(2, 4)) for _ in range(ctx.n(150, 2000))]
+    ecases = []
+    for tx in dict.fromkeys(texts):
+        b = expr_tree(tx)
+        if b is None:
+            continue
+        ps = SH.paths(b[1])
+        for p in (ps if len(ps) <= 9 else rnd.sample(ps, 9)):
+            ecases.append((tx, b[1], p))
+    emodel = common.drive([f"BTROT {p or '-'} {SH.text(t)}" for _, t, p in ecases]) if ctx.driver_ok else [None] * len(ecases)
+    for (tx, t, p), m in zip(ecases, emodel):
+        res.evaluations += 1
+        inp = dict(expression=tx, shape=SH.text(t), node=p, ids="expression")
+        if p:
+            res.nontrivial.add((tx, p))
+        res.count("expression")
+        root, _, table = expr_tree(tx)
+        kinds = (type(table[SH.sub(t, p)[1]]).__name__, type(table[SH.sub(t, p)[1]].parent).__name__)
+        res.count("expr node/parent same class" if kinds[0] == kinds[1] else "expr node/parent different class")
+        try:
+            after, errs = rotate_impl(t, p, built=(root, table))
+        except Exception as e:
+            res.failures.append(dict(**{"class": "rotate-raises"}, input=inp, detail=repr(e)))
+            continue
+        got = "OK " + SH.text(after)
+        if m is not None and m.strip() != got:
+            res.disagreements.append(dict(suite="rotate", input=inp, impl=got, model=m, classes=kinds))
+        if errs:
+            res.failures.append(dict(**{"class": "links"}, input=inp, detail="; ".join(errs[:3]) + f" (node/parent classes {kinds})", after=SH.text(after)))
+        elif [a for a, _ in SH.orders(after)[1]] != [a for a, _ in SH.orders(t)[1]]:
+            res.failures.append(dict(**{"class": "inorder-changed"}, input=inp, detail="in-order sequence differs after rotate()", after=SH.text(after)))
+        elif p and after == t:
+            res.failures.append(dict(**{"class": "not-moved"}, input=inp, detail=f"a non-root node was not moved above its parent (node/parent classes {kinds})", after=SH.text(after)))
     model = common.drive([f"BTROT {p or '-'} {SH.text(t)}" for t, p, _ in cases]) if ctx.driver_ok else [None] * len(cases)
     for (t, p, collide), m in zip(cases, model):
         res.evaluations += 1
@@ -88,6 +141,8 @@ def run(ctx):
             res.failures.append(dict(**{"class": "inorder-changed"}, input=inp, detail="in-order sequence differs after rotate()", after=SH.text(after)))
         elif not p and after != t:
             res.failures.append(dict(**{"class": "root-rotation"}, input=inp, detail="rotating the root changed the tree", after=SH.text(after)))
+        elif p and after == t:
+            res.failures.append(dict(**{"class": "not-moved"}, input=inp, detail="a non-root node was not moved above its parent", after=SH.text(after)))
         if SH.size(t) == 6 and len(p) == 2:
             res.sample(dict(inp, after=SH.text(after)))
     # ---- heap level: every object's three pointers after node.rotate() vs the extracted Heap.hrotate on the object graph before
@@ -122,7 +177,12 @@ def replay(payload):
     print("finding:", f.get("class"), f.get("detail"))
     inp = f["input"]
     t = SH.parse_text(inp["shape"])
-    after, errs = rotate_impl(t, inp["node"], ["distinct", "all equal", "two alternating"].index(inp.get("ids", "distinct")))
+    if inp.get("ids") == "expression":
+        root, t, table = expr_tree(inp["expression"])
+        print("expression:", inp["expression"])
+        after, errs = rotate_impl(t, inp["node"], built=(root, table))
+    else:
+        after, errs = rotate_impl(t, inp["node"], ["distinct", "all equal", "two alternating"].index(inp.get("ids", "distinct")))
     print("before:", inp["shape"], "rotate node at", inp["node"] or "root")
     print("after :", SH.text(after), errs)
     print("model :", common.drive([f"BTROT {inp['node'] or '-'} {inp['shape']}"]))
